@@ -35,12 +35,24 @@ func (matcher *requestResponseMatcher) emitEvent(isRequest bool, ident string, m
 	}
 
 	if item != nil {
-		item.ConnectionInfo = &api.ConnectionInfo{
-			ClientIP:   reader.GetTcpID().SrcIP,
-			ClientPort: reader.GetTcpID().SrcPort,
-			ServerIP:   reader.GetTcpID().DstIP,
-			ServerPort: reader.GetTcpID().DstPort,
-			IsOutgoing: true,
+		// The reader of the server half has the server as its source.
+		tcpID := reader.GetTcpID()
+		if reader.GetIsClient() {
+			item.ConnectionInfo = &api.ConnectionInfo{
+				ClientIP:   tcpID.SrcIP,
+				ClientPort: tcpID.SrcPort,
+				ServerIP:   tcpID.DstIP,
+				ServerPort: tcpID.DstPort,
+				IsOutgoing: true,
+			}
+		} else {
+			item.ConnectionInfo = &api.ConnectionInfo{
+				ClientIP:   tcpID.DstIP,
+				ClientPort: tcpID.DstPort,
+				ServerIP:   tcpID.SrcIP,
+				ServerPort: tcpID.SrcPort,
+				IsOutgoing: true,
+			}
 		}
 		reader.GetEmitter().Emit(item)
 	}
